@@ -91,7 +91,7 @@ def actions_for(rng, cfg, method, bias):
         elif r < 0.60: acts.append("cancel")
         elif r < 0.82: acts.append(change_action(rng, cfg))
         elif r < 0.93: acts += ["cancel", change_action(rng, cfg)] if rng.random() < 0.5 else [change_action(rng, cfg), "cancel"]
-        else: acts.append(rng.choice([status_action, plan_action])(rng, cfg))
+        elif cfg.plans: acts.append(rng.choice([status_action, plan_action])(rng, cfg))
     elif method in LIFE:
         if cfg.plans and rng.random() < 0.6: acts.append(plan_action(rng, cfg))
         if rng.random() < 0.15: acts.append(change_action(rng, cfg))       # not permitted on a PlanControl: both sides skip
